@@ -8,6 +8,7 @@ import StathamModel.Dedupe
 import StathamModel.Validate
 import StathamModel.Spec.Draft6
 import StathamModel.Good
+import StathamModel.SerJson
 open Lean (Json)
 open Statham Statham.Codec
 
@@ -61,6 +62,22 @@ def handle (req : Json) : R Json := do
       | .notPassed => Json.null).toArray
     pure (Json.mkObj [("impl_leniency", run typeHasObject), ("strict", run fun _ => false),
       ("lenient", run fun _ => true), ("flags", flags), ("distinct_keys", dk)])
+  | "serialize_json" => do
+    let els ← (← (← req.getObjVal? "elements").getArr?).toList.mapM decElem
+    let defs ← match getField req "definitions" with
+      | some d => (← d.getArr?).toList.mapM fun kv => do
+          let p ← kv.getArr?
+          if p.size != 2 then throw "bad definition entry"
+          pure (← p[0]!.getStr?, ← decElem p[1]!)
+      | none => pure []
+    match serializeJson els defs with
+    | .ok j => pure (Json.mkObj [("r", "ok"), ("json", encVal j)])
+    | .error .primaryIsFalse => pure (Json.mkObj [("r", "err"), ("kind", "primaryIsFalse")])
+    | .error .noElements => pure (Json.mkObj [("r", "err"), ("kind", "noElements")])
+  | "elem_eq" => do
+    let a ← decElem (← req.getObjVal? "a")
+    let b ← decElem (← req.getObjVal? "b")
+    pure (Json.mkObj [("eq", elemEq a b), ("eq_rev", elemEq b a)])
   | "elem_call" => do
     let tables ← getTables req
     let el ← decElem (← req.getObjVal? "elem")
